@@ -134,3 +134,23 @@ Proof.
   { right. exists [3; 2; 1; 0], [3]. split; [reflexivity|]. split; [reflexivity|]. intros e; reflexivity. }
   unfold ops. repeat (apply Forall_cons; [first [exact P | exact Q]|]). apply Forall_nil.
 Qed.
+
+(* request level (dispatcher.ServeHTTP): one Pop per forwarded request, none for a refused one, so the
+   policy's TRAFFIC is shared floor/ceil among its k ready endpoints *)
+Theorem C14_request_level_even : forall ups ok s ops e,
+  let rd := filter ok ups in
+  let k := Z.of_nat (List.length rd) in
+  let F := Z.of_nat (nfwd (qzero s) ops) in
+  2 <= k -> NoDup rd -> In e rd ->
+  0 <= get (qcur s) rd -> get (qcur s) rd + F < two64 ->
+  forwarded (qrun ups ok s ops) = snd (pops (qcur s) (repeat ups (nfwd (qzero s) ops)) ok) /\
+  F / k <= pcount e (forwarded (qrun ups ok s ops)) <= ceil_div F k.
+Proof. exact request_level_even. Qed.
+Print Assumptions C14_request_level_even.
+
+(* k = 2: four forwarded requests alternate 1, 0, 1, 0 although two refused ones sit in between *)
+Example C14_request_level_nonvacuous :
+  let ops := [QReq; QReq; QLimit true; QReq; QReq; QLimit false; QReq; QReq] in
+  map qres_code (qrun [0; 1] (fun _ => true) {| qcur := []; qzero := false |} ops) = [1; 0; -2; -3; -3; -2; 1; 0]
+  /\ nfwd false ops = 4%nat.
+Proof. vm_compute. split; reflexivity. Qed.
